@@ -22,6 +22,17 @@
 //! grouped => pgid == pid with the session inherited, plain => both inherited; the CLI joins the
 //! command words with one space for a shell and passes them through unchanged without one.
 //!
+//! Bounds. inspect/exec: 1885 vectors x 3 programs x 4 option sets (both tiers). inspect/shell:
+//! quick = options, args <= 2 over 6 tokens, 12 commands, program option {-c, none}; thorough =
+//! all 12 tokens and program option {-c, none, /C}. spawn/exec: every vector <= 2 (thorough <= 3)
+//! x {plain, grouped, session} (thorough also grouped+session) with the sync hook; vectors <= 1
+//! (thorough <= 2) also with no hook and with the async hook. spawn/shell: options <= 1 and
+//! args <= 1 over 4 tokens (thorough 12) x 12 commands x program option {-c, none} x 3 placements.
+//! cli: every word vector of length 1..=3 (thorough 1..=4) x 7 shell modes x 5 wrap spellings.
+//! The spawn leg runs on at most 4 threads (concurrent fork() from many threads serialises on
+//! the address-space lock); a spawn that does not finish in 30 s is retried once and then
+//! reported as a machinery error, never as a verdict.
+//!
 //! Deviations from DESIGN.md section 7: the `KillOnDrop` wrapper is not asserted (the statement
 //! does not speak about it); the helper is a second binary of this package (src/bin), found next
 //! to the running executable; nothing is asserted about cwd / environment when no hook is set
@@ -605,7 +616,7 @@ pub fn run(tier: Tier, seed: u64) -> EnumOut {
 	// CLI
 	let modes = ["-n", "--shell=none", "--shell=bash", "--shell=bash -x", "--shell=zsh -x -o shwordsplit", "--shell=bash  -x", "default"];
 	let wraps = ["default", "group", "session", "none", "no-process-group"];
-	for words in vectors(&all, if thorough { 3 } else { 2 }).into_iter().filter(|w| !w.is_empty()) {
+	for words in vectors(&all, if thorough { 4 } else { 3 }).into_iter().filter(|w| !w.is_empty()) {
 		for mode in modes {
 			for wrap in wraps {
 				work.push(Work::Cli(CliCase { mode: mode.into(), wrap: wrap.into(), words: words.clone() }));
